@@ -556,7 +556,8 @@ def stateGate (v : VSock) (hdr : Header) : Gate :=
     | .established =>
       if isFin then
         if hdr.seqNr ≠ wadd v.lastConsumedRemoteSeqNr 1 then .dropPacket v
-        else .proceed { v with state := .lastAck v.seqNr hdr.seqNr, seqNr := wadd v.seqNr 1 }
+        else .proceed { v with state := .lastAck v.seqNr hdr.seqNr, seqNr := wadd v.seqNr 1,
+                               segs := v.segs.discardUnsent }   -- nothing new is sent once the remote closed (D22)
       else .proceed v
     | .finWait1 ourFin =>
       if isFin then
